@@ -90,6 +90,8 @@ impl<const S: usize> Multihasher<S> for Scripted {
     async fn hash(&self, code: u64, input: &[u8]) -> Result<Multihash<S>, MultihasherError> {
         self.calls.lock().unwrap().push(self.idx);
         let kind = self.answers.iter().find(|(c, _)| *c == code).map(|x| x.1).unwrap_or('u');
+        // 'p': a picky hasher — the same code is hashed or refused (non-fatally) depending on the data
+        let kind = if kind == 'p' { if input.first() == Some(&0xee) { 'c' } else { 'o' } } else { kind };
         match kind {
             'o' => {
                 // a deterministic fake digest: hasher index, then a checksum of the input
